@@ -21,6 +21,13 @@ def leaf_producers(f, operand, depth=12, extra_transparent=()):
         l = p[0]
         proj = [e for e in p[1:] if e != "*"]
         if proj:
+            # `x?`: the Continue payload of Try::branch(x) is x's success value
+            br = [x for kind, b, x in defs.get(l, []) if kind == "call" and callee(x).endswith("ops::Try>::branch")]
+            if br and any(isinstance(e, list) and e[0] == "d" and e[1] == "Continue" for e in proj):
+                if (l, "br") not in seen:
+                    seen.add((l, "br"))
+                    work.append(br[0][2][0])
+                continue
             names = []
             for e in proj:
                 if isinstance(e, list) and e[0] == "d":
